@@ -1,6 +1,6 @@
 (* C20_sort_manifests — pkg/release/util/manifest_sorter.go: SortManifests :77,
    manifestFile.sort :139, hasAnyAnnotation :218, calculateHookWeight :227,
-   operateAnnotationValues :237, and kind_sorter.go sortManifestsByKind :121 (the
+   operateAnnotationValues :237, and kind_sorter.go sortManifestsByKind :120 (the
    manifests[i].Head.Kind dereference).
    A document is what sigs.k8s.io/yaml made of it: a parse error, or a SimpleHead whose
    Metadata pointer may be nil and whose Annotations map may be nil or empty. *)
